@@ -150,10 +150,10 @@ template <class C> static void apply_step(typename C::hist& hist, Model& model, 
     Key lo(HD), hi(HD);
     for (std::size_t d = 0; d < HD; ++d) { lo[d] = s.lo[d]; hi[d] = s.hi[d]; }
     KeyT lower = tuple_of<KeyT>(lo), upper = tuple_of<KeyT>(hi);
-    // The statement does not say whether the limits are compared with the channel value or with the key (value / bin width); fill() uses the
-    // key, the dense pre-fill the value. The two readings coincide for bin width 1, so limits are ENFORCED only there; with a wider bin the
-    // box is still passed (it bounds the dense pre-fill) but setlimits stays false.
-    bool enforce = s.limits && s.bw == 1;
+    // Limits are bin keys: the parameters have the histogram's key_type and are documented as "limit on the values in histogram",
+    // and fill() compares them with the key (channel / bin width). (Only the dense pre-fill divides them once more; it creates empty
+    // bins only, which are not counted pixels.)
+    bool enforce = s.limits;
     bool dense = s.dense && HD == 1 && s.limits; // dense pre-fill exists for 1-D keys; run inside an explicit box
     // ---- library
     auto call = [&](auto const& srcv) {
@@ -344,7 +344,7 @@ static void run_history(Case const& c)
             // a dense pre-fill creates one bin per key of the box: keep it to a few hundred bins (16-bit boxes at the range ends are 65k wide)
             if (s.dense && s.hi[0] - s.lo[0] > 300) s.hi[0] = s.lo[0] + 300;
             std::string what = std::string(cfg_name[cfg]) + " fill #" + std::to_string(i + 1) + " (" + std::to_string(s.w) + "x" + std::to_string(s.h) + ", bin width " + std::to_string(s.bw) + (s.accumulate ? ", accumulate" : ", replace") +
-                               (s.defaults ? ", defaulted arguments" : std::string(s.dense ? ", dense" : ", sparse") + (s.mask ? ", mask" : "") + (s.limits ? (s.bw == 1 ? ", limits" : ", box (not enforced)") : "")) + ")";
+                               (s.defaults ? ", defaulted arguments" : std::string(s.dense ? ", dense" : ", sparse") + (s.mask ? ", mask" : "") + (s.limits ? ", limits" : "")) + ")";
             apply_step<C>(hist, model, s, what);
             if (i + 1 == n) check_derived(hist, model, c, what);
         }
